@@ -190,6 +190,7 @@ pub fn judge(known: &[KnownEntry], st: &CertState, ctx: &Ctx) -> Outcome {
             (Some(i), SubjectSrc::Pair(kp)) => p1.clone().signed_by(kp, &i.cert, &i.key),
             (Some(i), SubjectSrc::Spki(s)) => p1.clone().signed_by(s, &i.cert, &i.key),
             (Some(i), SubjectSrc::Custom(c)) => p1.clone().signed_by(c, &i.cert, &i.key),
+            (Some(i), SubjectSrc::CsrPub(c)) => p1.clone().signed_by(c, &i.cert, &i.key),
             _ => unreachable!(),
         });
         match reissue {
@@ -278,6 +279,194 @@ pub fn run(prop: &str, tier: &str, replay: Option<&str>) -> i32 {
             let sub = SubtreeSpec::Ip(c.0.clone());
             st.nc = Some(if c.1 { NcSpec { permitted: vec![], excluded: vec![sub] } } else { NcSpec { permitted: vec![sub], excluded: vec![] } });
             judge(&known, &st, &ctx)
+        });
+        rep.add(sec);
+    }
+    // CA certificates generated by OpenSSL with the same fields, then imported
+    {
+        let zoo = load_zoo();
+        let z = zoo.iter().find(|z| z.kind == KeyKind::P256 && z.format == KeyFormat::Pkcs8).unwrap();
+        // (key usage mask 9 bits, path length, eku mask 6 bits, san mask 4 bits, name constraint variant 0..=3)
+        let mut cases: Vec<(u16, Option<u32>, u8, u8, u8)> = Vec::new();
+        for ku in 0..512u16 {
+            cases.push((ku, None, 0, 0, 0));
+        }
+        for pl in 0..=255u32 {
+            cases.push((0x24, Some(pl), 0, 0, 0));
+        }
+        for pl in [256u32, 65535, 1 << 31] {
+            cases.push((0x24, Some(pl), 0, 0, 0));
+        }
+        for eku in 0..64u8 {
+            cases.push((0x24, None, eku, 0, 0));
+        }
+        for san in 0..16u8 {
+            for nc in 0..4u8 {
+                cases.push((0x24, Some(1), 0x3, san, nc));
+            }
+        }
+        let sec = Section::new("openssl-built-ca/import", "CA certificates built by OpenSSL's X509Builder: all 512 key-usage sets, path lengths 0..=255 (and 256, 65535, 2^31: must be refused), all 64 subsets of six standard EKUs, all 16 subsets of {DNS, email, URI, IP} SANs x 4 name-constraint variants; imported parameters must equal what OpenSSL was told");
+        run::sweep_cases(&sec, &cases, &|c| format!("ku={:09b} pathlen={:?} eku={:06b} san={:04b} nc={}", c.0, c.1, c.2, c.3, c.4), &|c| {
+            use openssl::asn1::Asn1Time;
+            use openssl::bn::BigNum;
+            use openssl::nid::Nid;
+            use openssl::x509::extension::{BasicConstraints, ExtendedKeyUsage, KeyUsage, SubjectAlternativeName, SubjectKeyIdentifier};
+            use openssl::x509::{X509Builder, X509NameBuilder};
+            let mut out = Outcome::default();
+            let build = || -> Result<Vec<u8>, openssl::error::ErrorStack> {
+                let mut nb = X509NameBuilder::new()?;
+                nb.append_entry_by_nid(Nid::ORGANIZATIONNAME, "OpenSSL built")?;
+                nb.append_entry_by_nid(Nid::COMMONNAME, "ca")?;
+                let name = nb.build();
+                let mut b = X509Builder::new()?;
+                b.set_version(2)?;
+                b.set_serial_number(BigNum::from_u32(0xabcdef)?.to_asn1_integer()?.as_ref())?;
+                b.set_subject_name(&name)?;
+                b.set_issuer_name(&name)?;
+                b.set_not_before(Asn1Time::from_unix(946684800)?.as_ref())?;
+                b.set_not_after(Asn1Time::from_unix(4102444800)?.as_ref())?;
+                b.set_pubkey(&z.pkey)?;
+                let mut bc = BasicConstraints::new();
+                bc.critical().ca();
+                if let Some(p) = c.1 {
+                    bc.pathlen(p);
+                }
+                b.append_extension(bc.build()?)?;
+                if c.0 != 0 {
+                    let mut k = KeyUsage::new();
+                    k.critical();
+                    let set: [fn(&mut KeyUsage) -> &mut KeyUsage; 9] = [KeyUsage::digital_signature, KeyUsage::non_repudiation, KeyUsage::key_encipherment, KeyUsage::data_encipherment, KeyUsage::key_agreement, KeyUsage::key_cert_sign, KeyUsage::crl_sign, KeyUsage::encipher_only, KeyUsage::decipher_only];
+                    for (i, f) in set.iter().enumerate() {
+                        if c.0 >> i & 1 == 1 {
+                            f(&mut k);
+                        }
+                    }
+                    b.append_extension(k.build()?)?;
+                }
+                if c.2 != 0 {
+                    let mut e = ExtendedKeyUsage::new();
+                    let set: [fn(&mut ExtendedKeyUsage) -> &mut ExtendedKeyUsage; 6] = [ExtendedKeyUsage::server_auth, ExtendedKeyUsage::client_auth, ExtendedKeyUsage::code_signing, ExtendedKeyUsage::email_protection, ExtendedKeyUsage::time_stamping, |e| e.other("OCSPSigning")];
+                    for (i, f) in set.iter().enumerate() {
+                        if c.2 >> i & 1 == 1 {
+                            f(&mut e);
+                        }
+                    }
+                    b.append_extension(e.build()?)?;
+                }
+                if c.3 != 0 {
+                    let mut sn = SubjectAlternativeName::new();
+                    if c.3 & 1 != 0 {
+                        sn.dns("o.example");
+                    }
+                    if c.3 & 2 != 0 {
+                        sn.email("m@o.example");
+                    }
+                    if c.3 & 4 != 0 {
+                        sn.uri("https://o.example/");
+                    }
+                    if c.3 & 8 != 0 {
+                        sn.ip("192.0.2.9");
+                    }
+                    let ext = sn.build(&b.x509v3_context(None, None))?;
+                    b.append_extension(ext)?;
+                }
+                let nc_conf = match c.4 {
+                    1 => Some("critical,permitted;DNS:example.com"),
+                    2 => Some("critical,excluded;IP:10.0.0.0/255.0.0.0"),
+                    3 => Some("critical,permitted;email:example.com,excluded;DNS:bad.example.com"),
+                    _ => None,
+                };
+                if let Some(conf) = nc_conf {
+                    #[allow(deprecated)]
+                    let ext = openssl::x509::X509Extension::new_nid(None, Some(&b.x509v3_context(None, None)), Nid::NAME_CONSTRAINTS, conf)?;
+                    b.append_extension(ext)?;
+                }
+                let ski = SubjectKeyIdentifier::new().build(&b.x509v3_context(None, None))?;
+                b.append_extension(ski)?;
+                b.sign(&z.pkey, openssl::hash::MessageDigest::sha256())?;
+                b.build().to_der()
+            };
+            let der = match build() {
+                Ok(d) => d,
+                Err(e) => {
+                    out.unexpected_err = Some(format!("OpenSSL could not build this CA: {}", e));
+                    return out;
+                }
+            };
+            out.digest = fnv(&der);
+            out.transitions = 3;
+            let imported = guarded(|| CertificateParams::from_ca_cert_der(&der.clone().into()));
+            let p = match imported {
+                Err(pn) => {
+                    out.findings.push(Finding::new("IMP-PANIC", "from_ca_cert_der", pn));
+                    return out;
+                }
+                Ok(Err(e)) => {
+                    // a path length rcgen cannot hold must be refused, everything else must import
+                    if c.1.map(|p| p <= 255).unwrap_or(true) {
+                        out.findings.push(Finding::new("IMP-REFUSED", "from_ca_cert_der", format!("OpenSSL-built CA refused: {:?}", e)));
+                    }
+                    return out;
+                }
+                Ok(Ok(p)) => p,
+            };
+            let got = project_real(&p);
+            let mut f = Vec::new();
+            let want_ku: Vec<u8> = (0..9u8).filter(|i| c.0 >> i & 1 == 1).collect();
+            if got.ku != want_ku {
+                f.push(Finding::new("IMP-VALUE(key_usages)", "OpenSSL-built CA", format!("want {:?} got {:?}", want_ku, got.ku)));
+            }
+            let want_ca = match c.1 {
+                None => IsCaSpec::Unconstrained,
+                Some(p) if p <= 255 => IsCaSpec::Constrained(p as u8),
+                Some(_) => {
+                    f.push(Finding::new("IMP-VALUE(is_ca)", "OpenSSL-built CA", format!("a path length of {:?} was imported as {:?}", c.1, got.is_ca)));
+                    got.is_ca
+                }
+            };
+            if got.is_ca != want_ca {
+                f.push(Finding::new("IMP-VALUE(is_ca)", "OpenSSL-built CA", format!("want {:?} got {:?}", want_ca, got.is_ca)));
+            }
+            let all_eku = [EkuSpec::ServerAuth, EkuSpec::ClientAuth, EkuSpec::CodeSigning, EkuSpec::EmailProtection, EkuSpec::TimeStamping, EkuSpec::OcspSigning];
+            let mut want_eku: Vec<EkuSpec> = all_eku.iter().enumerate().filter(|(i, _)| c.2 >> i & 1 == 1).map(|(_, e)| e.clone()).collect();
+            want_eku.sort();
+            if got.eku != want_eku {
+                f.push(Finding::new("IMP-VALUE(extended_key_usages)", "OpenSSL-built CA", format!("want {:?} got {:?}", want_eku, got.eku)));
+            }
+            let mut want_san: Vec<String> = Vec::new();
+            if c.3 & 1 != 0 {
+                want_san.push(format!("{:?}", SanSpec::Dns("o.example".into())));
+            }
+            if c.3 & 2 != 0 {
+                want_san.push(format!("{:?}", SanSpec::Email("m@o.example".into())));
+            }
+            if c.3 & 4 != 0 {
+                want_san.push(format!("{:?}", SanSpec::Uri("https://o.example/".into())));
+            }
+            if c.3 & 8 != 0 {
+                want_san.push(format!("{:?}", SanSpec::Ip(vec![192, 0, 2, 9])));
+            }
+            want_san.sort();
+            if got.sans != want_san {
+                f.push(Finding::new("IMP-VALUE(subject_alt_names)", "OpenSSL-built CA", format!("want {:?} got {:?}", want_san, got.sans)));
+            }
+            let (wp, we): (Vec<String>, Vec<String>) = match c.4 {
+                1 => (vec!["dns:example.com".into()], vec![]),
+                2 => (vec![], vec![format!("ip4:{:?}/{:?}", [10u8, 0, 0, 0], [255u8, 0, 0, 0])]),
+                3 => (vec!["email:example.com".into()], vec!["dns:bad.example.com".into()]),
+                _ => (vec![], vec![]),
+            };
+            if got.permitted != wp || got.excluded != we {
+                f.push(Finding::new("IMP-VALUE(name_constraints)", "OpenSSL-built CA", format!("want {:?}/{:?} got {:?}/{:?}", wp, we, got.permitted, got.excluded)));
+            }
+            if got.serial != Some(vec![0xab, 0xcd, 0xef]) || got.not_before != 946684800 || got.not_after != 4102444800 {
+                f.push(Finding::new("IMP-VALUE(serial/validity)", "OpenSSL-built CA", format!("{:?} {} {}", got.serial, got.not_before, got.not_after)));
+            }
+            if got.dn != vec![(DnTypeSpec::O, StrKind::Utf8, "OpenSSL built".to_string()), (DnTypeSpec::Cn, StrKind::Utf8, "ca".to_string())] {
+                f.push(Finding::new("IMP-VALUE(subject)", "OpenSSL-built CA", format!("{:?}", got.dn)));
+            }
+            out.findings = f;
+            out
         });
         rep.add(sec);
     }
